@@ -7,6 +7,7 @@ RULE = ('complete enumeration: 4 core translation units x {gcc, clang} x {-O0, -
         'must be a function declared in lltdPort.h, one of memcpy/memset/memmove/memcmp, or listed compiler runtime; every <...> header included by a core file must be a freestanding one; '
         'the repository lint script must be clean. The kernel checks the enumeration over the regenerated facts; on failure the offending (configuration, symbol) is named. '
         'distinct = configurations x distinct undefined symbols')
+NO_HARNESS = True     # decided on the symbol facts (bin/symfacts.py) and the theorems about them; no scenario is run
 def scenarios(rng, tier): return []
 def project(blk, name, meta): return ()
 ALLOWED_EXTRA = {'memcpy', 'memset', 'memmove', 'memcmp', '_GLOBAL_OFFSET_TABLE_', '__stack_chk_fail', '__stack_chk_guard',
